@@ -832,6 +832,8 @@ namespace link_layer {
         std::uint16_t                   timeout_value_;
         delta_time                      connection_timeout_;
         delta_time                      procedure_timeout_;
+        // opcode of the PDU, that started the procedure, that is guarded by procedure_timeout_
+        std::uint8_t                    procedure_timeout_request_;
         std::uint16_t                   defered_conn_event_counter_;
         write_buffer                    defered_ll_control_pdu_;
         // copy of the defered PDU: the receive buffer is reused while the PDU waits for its instant.
@@ -963,6 +965,7 @@ namespace link_layer {
                 version_indication_send_                = false;
                 disconnecting_reason_                   = connection_timeout;
                 procedure_timeout_                      = delta_time();
+                procedure_timeout_request_              = LL_UNKNOWN_RSP;
 
                 this->set_access_address_and_crc_init( read_32bit( &body[ 12 ] ), read_24bit( &body[ 16 ] ) );
 
@@ -1227,6 +1230,7 @@ namespace link_layer {
         termination_send_     = false;
         disconnecting_reason_ = reason;
         procedure_timeout_    = connection_timeout_;
+        procedure_timeout_request_ = LL_TERMINATE_IND;
 
         this->synchronized_connection_event_callback_disconnect();
         this->reset_encryption();
@@ -1289,6 +1293,7 @@ namespace link_layer {
         if ( connection_parameters_request_pending_ )
         {
             procedure_timeout_ = delta_time( default_procedure_timeout_us );
+            procedure_timeout_request_ = LL_CONNECTION_PARAM_REQ;
             connection_parameters_request_pending_ = false;
             connection_parameters_request_running_ = true;
 
@@ -1322,6 +1327,7 @@ namespace link_layer {
         else if ( remote_versions_request_pending_ )
         {
             procedure_timeout_ = delta_time( default_procedure_timeout_us );
+            procedure_timeout_request_ = LL_VERSION_IND;
             remote_versions_request_pending_ = false;
             version_indication_send_ = true;
 
@@ -1591,7 +1597,8 @@ namespace link_layer {
             }
             else if ( opcode == LL_VERSION_IND && size == 6 && !version_indication_received_ )
             {
-                procedure_timeout_ = delta_time();
+                if ( procedure_timeout_request_ == LL_VERSION_IND )
+                    procedure_timeout_ = delta_time();
 
                 if ( body[ 1 ] <= LL_VERSION_40 )
                     used_features_ = used_features_ & ~link_layer_feature::connection_parameters_request_procedure;
@@ -1654,7 +1661,8 @@ namespace link_layer {
 
                 if ( !opcode_contains_request || ( opcode_contains_request && body[ 1 ] == LL_CONNECTION_PARAM_REQ ) )
                 {
-                    procedure_timeout_ = delta_time();
+                    if ( procedure_timeout_request_ == LL_CONNECTION_PARAM_REQ )
+                        procedure_timeout_ = delta_time();
 
                     if ( connection_parameters_request_running_ && connection_parameters_request_use_signaling_channel_ )
                     {
@@ -1740,7 +1748,8 @@ namespace link_layer {
             }
             else if ( opcode == LL_CONNECTION_UPDATE_IND )
             {
-                procedure_timeout_ = delta_time();
+                if ( procedure_timeout_request_ == LL_CONNECTION_PARAM_REQ )
+                    procedure_timeout_ = delta_time();
 
                 if ( parse_timing_parameters_from_connection_update_request( body ) )
                 {
